@@ -5,6 +5,7 @@ import Mathlib.Tactic.Ring
 import Mathlib.Tactic.FieldSimp
 import Mathlib.Tactic.LinearCombination
 import Mathlib.FieldTheory.Finite.Basic
+import Mathlib.Data.List.TakeWhile
 /-
   Ark.Proofs.H2C — helper lemmas for property C13 (hash-to-field / hash-to-curve):
   the MODEL `Ark.H2C` against the SPEC `Ark.H2C.Rfc` (RFC 9380).
@@ -498,5 +499,164 @@ theorem expandXmd_eq (H : Bytes → Bytes) (bLen s : Nat) (hs : s ≤ 256) (dst 
       · have hn' : n > 65535 := by omega
         simp [hell', hell, hd, hn, hn', ofOpt, obind]
 end xmd
+
+section h2f
+
+theorem extract_toList (b : Array Nat) (off len : Nat) :
+    (b.extract off (off + len)).toList = (b.toList.drop off).take len := by
+  simp [Array.toList_extract]
+
+theorem getLenPerElem_eq (p k : Nat) : getLenPerElem (Rfc.ceilLog2 p) k = Rfc.paramL p k := by
+  unfold getLenPerElem Rfc.paramL
+  rw [← ceilDiv_eq _ 8 (by decide)]
+  rfl
+
+theorem zipIdx_sum_succ (l : List Nat) (k : Nat) :
+    ((l.zipIdx (k + 1)).map fun (x, i) => x * 256 ^ i).sum =
+      256 * ((l.zipIdx k).map fun (x, i) => x * 256 ^ i).sum := by
+  induction l generalizing k with
+  | nil => rfl
+  | cons a l ih =>
+    simp only [List.zipIdx_cons, List.map_cons, List.sum_cons, ih (k + 1)]
+    rw [Nat.pow_succ]; ring
+
+theorem rfc_os2ip_eq (b : Bytes) :
+    Rfc.os2ip b = ((b.reverse.zipIdx).map fun (x, i) => x * 256 ^ i).sum := by
+  cases b <;> rfl
+
+theorem os2ip_eq (b : Bytes) : os2ip b = Rfc.os2ip b := by
+  induction b using List.reverseRecOn with
+  | nil => rfl
+  | append_singleton b x ih =>
+    rw [rfc_os2ip_eq] at ih ⊢
+    unfold os2ip at ih ⊢
+    rw [List.foldl_append, List.foldl_cons, List.foldl_nil, ih, List.reverse_append,
+      List.reverse_singleton, List.singleton_append, List.zipIdx_cons, List.map_cons, List.sum_cons,
+      zipIdx_sum_succ]
+    simp only [Nat.pow_zero]
+    ring
+
+theorem omapM_ok {α β : Type} (f : α → Outcome β) (g : α → β) (l : List α)
+    (h : ∀ a ∈ l, f a = .ok (g a)) : omapM f l = .ok (l.map g) := by
+  induction l with
+  | nil => rfl
+  | cons a l ih =>
+    rw [omapM, h a (List.mem_cons_self), ih (fun x hx => h x (List.mem_cons_of_mem _ hx))]
+    rfl
+
+theorem xmdLoop_length (H : Bytes → Bytes) (bLen : Nat) (hH : ∀ x, (H x).length = bLen) (b0 dp : Bytes) :
+    ∀ (cnt i : Nat) (bi : Bytes), (xmdLoop H b0 dp cnt i bi).length = cnt * bLen := by
+  intro cnt
+  induction cnt with
+  | zero => intros; simp [xmdLoop]
+  | succ cnt ih =>
+    intro i bi
+    simp only [xmdLoop, List.length_append, hH, ih]
+    ring
+
+/-- with a hash of output size `bLen > 0` the expander returns exactly `n` bytes -/
+theorem expandXmd_length (H : Bytes → Bytes) (bLen : Nat) (hH : ∀ x, (H x).length = bLen) (hb : 0 < bLen)
+    (s : Nat) (dst msg : Bytes) (n : Nat) (b : Bytes) (h : expandXmd H bLen s dst msg n = .ok b) :
+    b.length = n := by
+  unfold expandXmd at h
+  simp only at h
+  split at h
+  · cases h
+  · cases hd : dstNewXmd H dst with
+    | panic => rw [hd] at h; cases h
+    | ok d =>
+      rw [hd] at h
+      simp only [obind] at h
+      split at h
+      · cases h
+      · split at h
+        · cases h
+        · injection h with h
+          subst h
+          rw [List.length_take, List.length_append, hH, xmdLoop_length H bLen hH]
+          apply Nat.min_eq_left
+          have h1 : n ≤ (n + bLen - 1) / bLen * bLen := by
+            have := Nat.div_add_mod (n + bLen - 1) bLen
+            have hr := Nat.mod_lt (n + bLen - 1) hb
+            rw [Nat.mul_comm] at this
+            omega
+          have h2 : (n + bLen - 1) / bLen * bLen ≤ bLen + ((n + bLen - 1) / bLen - 1) * bLen := by
+            rcases Nat.eq_zero_or_pos ((n + bLen - 1) / bLen) with h0 | h0
+            · rw [h0]; omega
+            · generalize (n + bLen - 1) / bLen = e at h0 ⊢
+              obtain ⟨e', rfl⟩ : ∃ e', e = e' + 1 := ⟨e - 1, by omega⟩
+              rw [Nat.add_mul]; simp only [Nat.add_sub_cancel]; omega
+          omega
+
+theorem subSlice_ok (b : Array Nat) (off len : Nat) (h : off + len ≤ b.size) :
+    subSlice b off len = .ok ((b.extract off (off + len)).toList) := by
+  unfold subSlice
+  rw [if_neg (by omega), if_neg (by omega)]
+
+/-- the model's `hash_to_field` is the RFC's, run with `s_in_bytes := L` -/
+theorem hashToField_eq (H : Bytes → Bytes) (bLen : Nat) (hH : ∀ x, (H x).length = bLen) (hb : 0 < bLen)
+    (p m k N : Nat) (hL : Rfc.paramL p k ≤ 256) (dst msg : Bytes) :
+    hashToField H bLen p (Rfc.ceilLog2 p) m k N dst msg =
+      ofOpt (Rfc.hashToField H bLen (Rfc.paramL p k) p m k dst msg N) := by
+  unfold hashToField Rfc.hashToField
+  simp only [getLenPerElem_eq]
+  have hx := expandXmd_eq H bLen (Rfc.paramL p k) hL dst msg (N * m * Rfc.paramL p k)
+  cases hr : Rfc.expandMessageXmd H bLen (Rfc.paramL p k) msg dst (N * m * Rfc.paramL p k) with
+  | none => rw [hr] at hx; rw [hx]; rfl
+  | some ub =>
+    rw [hr] at hx
+    have hlen := expandXmd_length H bLen hH hb _ _ _ _ _ hx
+    rw [hx]
+    simp only [ofOpt, obind]
+    apply omapM_ok
+    intro i hi
+    apply omapM_ok
+    intro j hj
+    rw [List.mem_range] at hi hj
+    rw [subSlice_ok]
+    simp only [os2ip_eq]
+    rw [List.size_toArray, hlen]
+    have h1 : j + i * m + 1 ≤ N * m := by
+      have : (i + 1) * m ≤ N * m := Nat.mul_le_mul_right m hi
+      rw [Nat.add_mul] at this; omega
+    have := Nat.mul_le_mul_left (Rfc.paramL p k) h1
+    rw [Nat.mul_add, Nat.mul_one, Nat.mul_comm _ (N * m)] at this
+    exact this
+end h2f
+
+section sha
+open Ark.Sha256 in
+theorem beBytes_length (n x : Nat) : (Ark.Sha256.beBytes n x).length = n := by
+  induction n generalizing x with
+  | zero => rfl
+  | succ n ih => simp [Ark.Sha256.beBytes, ih]
+
+theorem compress_length (hs blk : List Ark.Sha256.Word) (h : hs.length = 8) :
+    (Ark.Sha256.compress hs blk).length = 8 := by
+  unfold Ark.Sha256.compress
+  split
+  · rfl
+  · exact h
+
+theorem blocks_length (fuel : Nat) (hs ws : List Ark.Sha256.Word) (h : hs.length = 8) :
+    (Ark.Sha256.blocks fuel hs ws).length = 8 := by
+  induction fuel generalizing hs ws with
+  | zero => exact h
+  | succ n ih =>
+    unfold Ark.Sha256.blocks
+    split
+    · exact h
+    · exact ih _ _ (compress_length _ _ h)
+
+/-- the modelled SHA-256 returns 32 bytes -/
+theorem sha256_length (msg : Ark.Sha256.Bytes) : (Ark.Sha256.sha256 msg).length = 32 := by
+  unfold Ark.Sha256.sha256
+  have h := blocks_length ((Ark.Sha256.toWords (Ark.Sha256.pad msg)).length / 16 + 1) Ark.Sha256.H0
+    (Ark.Sha256.toWords (Ark.Sha256.pad msg)) rfl
+  simp only
+  generalize Ark.Sha256.blocks _ _ _ = l at h
+  match l, h with
+  | [a, b, c, d, e, f, g, i], _ => simp [beBytes_length]
+end sha
 
 end Ark.H2C.P
